@@ -63,6 +63,9 @@ type scenario struct {
 	// than the one holding the sources and outputs, as with /tmp on tmpfs or a container
 	// volume: renames between the two fail with EXDEV.
 	TmpElsewhere bool
+	// ForeignOwner: the sources and outputs that exist before the command belong to
+	// somebody else (the process may write them; it cannot chown anything to them).
+	ForeignOwner bool
 	Cmd          string // "fmt" | "render"
 	Args         []string
 	Files        []fileSpec
@@ -126,6 +129,10 @@ func genScenario(tp *tape.Tape, idx int, thorough bool) scenario {
 	sc.TmpElsewhere = tp.Chance(1, 2, "layout.tmp-elsewhere")
 	if sc.TmpElsewhere {
 		sc.Desc += " [TMPDIR on another file system]"
+	}
+	sc.ForeignOwner = tp.Chance(1, 4, "layout.foreign-owner")
+	if sc.ForeignOwner {
+		sc.Desc += " [existing files owned by another user]"
 	}
 	return sc
 }
@@ -260,6 +267,17 @@ type outcome struct {
 // write number crashAt after midK bytes.
 func execute(dir string, sc scenario, crashAt, midK int) outcome {
 	fs := &simfs.FS{Root: dir, Other: otherFS(dir), CrossDevice: sc.TmpElsewhere, Record: true}
+	if sc.ForeignOwner {
+		fs.Foreign = map[uint64]bool{}
+		filepath.Walk(dir, func(p string, info os.FileInfo, err error) error {
+			if err == nil && p != dir {
+				if st, ok := info.Sys().(*syscall.Stat_t); ok {
+					fs.Foreign[st.Ino] = true
+				}
+			}
+			return nil
+		})
+	}
 	// The process's temporary directory is always a directory of its own, outside the
 	// directory of the sources and outputs; whether it is another file system is the
 	// scenario's layout.
@@ -500,7 +518,7 @@ func Run(cfg harness.Config, idx int, tp *tape.Tape) harness.Result {
 	}
 	// (The real kernel cannot be told that the two directories are different mounts, so
 	// the comparison with the real binary is made for single-file-system layouts only.)
-	if res.Oracle == "" && res.HarnessError == "" && !sc.TmpElsewhere && crossValidateWanted(cfg) {
+	if res.Oracle == "" && res.HarnessError == "" && !sc.TmpElsewhere && !sc.ForeignOwner && crossValidateWanted(cfg) {
 		crossValidate(&res, cfg, dir, sc, dry, newContent, oldContent, simClass)
 	}
 	res.Evals = executed
